@@ -222,4 +222,43 @@ def run(p, report, tier):
         da = DefiniteAssignment(_it(fn.node)).run()
         report.add("R1.7", fn.qual, "all locals bound before use", f"{fn.file}:{fn.node.lineno}", not da.reports,
                    detail="; ".join(f"{k} unbound" for k in da.reports))
+    # ---- R16.6 / R16.7 (round 4)
+    report.rule("R16.6", "the encoder validates label arrays without narrowing what it accepts: every check_array on the "
+                "labels in fit / transform / inverse_transform passes ensure_min_samples=0 (empty arrays round-trip), "
+                "dtype=None and ensure_2d=False; fit and transform also ensure_all_finite=False (NaN sentinel)", floor=3)
+    report.rule("R16.7", "the encoding is a function of the current parameters: every attribute that ExtLabelEncoder.fit "
+                "stores on some path is stored on every path that returns (no early return keeps the classes / sentinel "
+                "of an earlier fit; shared with C13 R13.5)", floor=1)
+    enc = p.get_class("ExtLabelEncoder")
+    if enc is None:
+        raise AnalysisError("ExtLabelEncoder vanished")
+    need = {"fit": {"ensure_min_samples": "0", "dtype": "None", "ensure_2d": "False", "ensure_all_finite": "False"},
+            "transform": {"ensure_min_samples": "0", "dtype": "None", "ensure_2d": "False", "ensure_all_finite": "False"},
+            "inverse_transform": {"ensure_min_samples": "0", "dtype": "None", "ensure_2d": "False"}}
+    for mn, req in need.items():
+        f = enc.methods.get(mn)
+        if f is None:
+            raise AnalysisError(f"ExtLabelEncoder.{mn} vanished")
+        ps = [a for a in f.params() if a != "self"]
+        calls = [c for c in ast.walk(f.node) if isinstance(c, ast.Call) and c01.callname(c) == "check_array" and c.args
+                 and isinstance(c.args[0], ast.Name) and ps and c.args[0].id == ps[0]]
+        for c in calls:
+            kws = {k.arg: ast.unparse(k.value) for k in c.keywords if k.arg}
+            # keywords given through a shared dict (`**check_dict`) are resolved one level
+            for k in c.keywords:
+                if k.arg is None and isinstance(k.value, ast.Name):
+                    for d in ast.walk(f.node):
+                        if isinstance(d, ast.Assign) and any(isinstance(t, ast.Name) and t.id == k.value.id for t in d.targets) \
+                                and isinstance(d.value, ast.Dict):
+                            for kk, vv in zip(d.value.keys, d.value.values):
+                                if isinstance(kk, ast.Constant):
+                                    kws.setdefault(kk.value, ast.unparse(vv))
+            miss = {k: v for k, v in req.items() if kws.get(k) != v}
+            report.add("R16.6", f.qual, f"`check_array({ps[0]}, ...)` accepts every label array", f"{f.file}:{c.lineno}", not miss,
+                       detail="keywords complete" if not miss else
+                       "missing / different: " + ", ".join(f"{k}={v}" for k, v in sorted(miss.items())) +
+                       (" - empty label arrays raise, so inverse_transform(transform(y)) fails for len(y) == 0"
+                        if "ensure_min_samples" in miss else ""))
+    from .c13_fit import check_store_on_every_path
+    check_store_on_every_path(p, report, [(enc, enc.methods["fit"])], rule="R16.7")
     report.assumptions += ["numpy casting rules, the round trip and dtype behaviour as values are not decided"]
